@@ -39,6 +39,33 @@ def producers_in(sv, prod_svs, depth=0):
 from ..framework import wants
 
 
+def droppable_origin_ok(ctx, prog, b, v, depth=0):
+    """the flag is the constant false, or the bool parameter of a public function (the application's own choice); a private helper's
+    parameter is judged at every call site of that helper"""
+    if const_val(v) == 0:
+        return True
+    if not is_param_load(v) or depth > 3:
+        return False
+    idx = v[1][0][1]
+    if b.is_pub:
+        return b.locals[idx]["t"].get("k") == "bool"
+    sites = 0
+    for ck in prog.callers.get(b.key, ()):
+        cb = prog.bodies.get(ck)
+        if cb is None:
+            continue
+        for bi, t in cb.calls():
+            if callee_path(t) != b.key:
+                continue
+            S, args = args_at(ctx, cb.key, bi)
+            if S is None or idx - 1 >= len(args):
+                return False
+            sites += 1
+            if not droppable_origin_ok(ctx, prog, cb, args[idx - 1], depth + 1):
+                return False
+    return sites >= 1
+
+
 def run(env, rep):
     prog, ctx = env.prog, env.ctx
     rep.explanation = (
@@ -94,7 +121,7 @@ def run(env, rep):
                               "%s calls %s on %s, not on the session's own serializer" % (b.pretty, pr.split("::")[-1], stable(args[0])), t["span"])
                 if pr.endswith("ChunkSerializer::serialize") and len(args) >= 4:
                     force, drop = args[2], args[3]
-                    okd = const_val(drop) == 0 or (is_param_load(drop) and b.is_pub and b.locals[drop[1][0][1]]["name"] == "can_be_dropped")
+                    okd = droppable_origin_ok(ctx, prog, b, drop)
                     rep.check("C18.R4", "%s::%s|can_be_dropped" % (which, name), okd,
                               "can_be_dropped is %s" % ("false" if const_val(drop) == 0 else "the caller's can_be_dropped"),
                               "%s passes can_be_dropped = %s to serialize: only media whose loss the application accepted may be flagged droppable (a dropped protocol message breaks the session)" % (b.pretty, stable(drop)), t["span"])
